@@ -15,6 +15,9 @@ func registerMore(m map[string]propSpec) {
 		{Harness: "faults", Overlay: "base", Name: "cuts", Shards: 2},
 	}}
 	m["C08"] = propSpec{Level: "model_checking", Engines: []engine{{Harness: "reg", Overlay: "base", Name: "sched", Shards: 8}}}
+	m["C12"] = propSpec{Level: "model_checking", Engines: []engine{{Harness: "codec", Overlay: "base", Shards: 8}}}
+	m["C14"] = propSpec{Level: "model_checking", Engines: []engine{{Harness: "conv", Overlay: "base"}}}
+	m["C15"] = propSpec{Level: "model_checking", Engines: []engine{{Harness: "stubsub", Overlay: "base", Shards: -1}}}
 	m["C06"] = propSpec{Level: "model_checking", Engines: []engine{
 		{Harness: "adapt", Overlay: "base", Name: "masks"},
 		{Harness: "adapt", Overlay: "base", Name: "order"},
